@@ -695,3 +695,101 @@ func returnsError(fn *ssa.Function) bool {
 	n, ok := res.At(res.Len() - 1).Type().(*types.Named)
 	return ok && n.Obj().Pkg() == nil && n.Obj().Name() == "error"
 }
+
+// LISTING-NOT-REORDERED (C15-R4, C16-R4, C05-R3): the receiver and the cleaner
+// rely on the order of the storage listing (names of one instance sort by time:
+// "a later name overwrites an earlier one"). The listing returned by List is
+// therefore never sorted, reversed or written to before it is scanned — also
+// not through a copy of the slice header handed to a helper (a metric that
+// sorts "its" BlobList by size reorders the caller's listing as well).
+func ruleListingNotReordered(c *Check, rule string, names ...string) {
+	reorder := map[string]bool{
+		"slices.Sort": true, "slices.SortFunc": true, "slices.SortStableFunc": true, "slices.Reverse": true,
+		"slices.Delete": true, "slices.DeleteFunc": true, "slices.Insert": true, "slices.Compact": true, "slices.CompactFunc": true,
+		"sort.Slice": true, "sort.SliceStable": true, "sort.Sort": true, "sort.Stable": true, "sort.Strings": true,
+	}
+	for _, name := range names {
+		fn := c.P.Func(name)
+		if fn == nil || fn.Blocks == nil {
+			c.Undecided(rule, name, "anchor function not found in the current tree", "")
+			continue
+		}
+		c.UseFunc(name)
+		n, bad := 0, 0
+		var visit func(v ssa.Value, d int, via string)
+		visit = func(v ssa.Value, d int, via string) {
+			if v.Referrers() == nil || d > 4 {
+				return
+			}
+			for _, r := range *v.Referrers() {
+				switch x := r.(type) {
+				case *ssa.IndexAddr:
+					if x.Referrers() != nil {
+						for _, rr := range *x.Referrers() {
+							if st, ok := rr.(*ssa.Store); ok && st.Addr == ssa.Value(x) {
+								bad++
+								c.Bad(rule, name+"/listing-not-reordered", "an element of the storage listing is overwritten"+via+" before the listing is scanned", c.P.InstrPos(st), nil)
+							}
+						}
+					}
+				case *ssa.Slice, *ssa.ChangeType, *ssa.MakeInterface, *ssa.Phi:
+					visit(x.(ssa.Value), d+1, via)
+				case *ssa.Store:
+					// kept in a local: follow its loads
+					if al, ok := x.Addr.(*ssa.Alloc); ok && x.Val == v && al.Referrers() != nil {
+						for _, ar := range *al.Referrers() {
+							if ld, ok := ar.(*ssa.UnOp); ok && ld.Op == token.MUL {
+								visit(ld, d+1, via)
+							}
+						}
+					}
+				case ssa.CallInstruction:
+					cc := x.Common()
+					callee := cc.StaticCallee()
+					if callee == nil {
+						continue
+					}
+					o := callee
+					if og := callee.Origin(); og != nil {
+						o = og
+					}
+					for i, a := range cc.Args {
+						if a != v {
+							continue
+						}
+						n++
+						if reorder[o.String()] && i == 0 {
+							bad++
+							c.Bad(rule, name+"/listing-not-reordered", "the storage listing is reordered in place by "+o.String()+via+": the scan that follows relies on its order (the last name of an instance is its newest snapshot)", c.P.InstrPos(x), nil)
+							continue
+						}
+						if strings.HasPrefix(fnPkgPath(callee), modPath) && callee.Blocks != nil && i < len(callee.Params) {
+							visit(callee.Params[i], d+1, " (through "+QualName(callee)+")")
+						}
+					}
+				}
+			}
+		}
+		for _, b := range fn.Blocks {
+			for _, in := range b.Instrs {
+				call, ok := in.(*ssa.Call)
+				if !ok || !call.Call.IsInvoke() || call.Call.Method.Name() != "List" {
+					continue
+				}
+				if call.Referrers() == nil {
+					continue
+				}
+				for _, r := range *call.Referrers() {
+					if ex, ok := r.(*ssa.Extract); ok && ex.Index == 0 {
+						n++
+						visit(ex, 0, "")
+					}
+				}
+			}
+		}
+		if bad == 0 {
+			c.Ok(rule, name+"/listing-not-reordered", fmt.Sprintf("the listing returned by List is not sorted, reversed or written to (%d uses followed, also into helpers)", n), c.P.Pos(fn.Pos()))
+		}
+		c.Floor(rule, n, 1, "uses of the listing in "+name)
+	}
+}
